@@ -207,7 +207,7 @@ def backward_slice(body, operand, max_steps=400, data_only=False):
                 for a in args:
                     if a[0] in ("c", "m"):
                         work.append(a[1][0])
-            elif d[0] in ("stmt", "part"):
+            elif d[0] in ("stmt", "part", "dpart"):
                 rv = d[3] if d[0] == "stmt" else d[4]
                 if rv and rv[0] == "cast":
                     casts.append(rv)
@@ -470,3 +470,13 @@ def truth_edges(body, df, expr):
         tt, ff = bool_edges(body, bb)
         out.append((bb, ff, tt) if flip else (bb, tt, ff))
     return out
+
+
+def must_pass(body, facts, through, target, start=0):
+    """every FEASIBLE path from `start` to block `target` passes through one of the blocks `through` (path-sensitive version of
+    'through dominates target': a merge point after an early `None` return does not break it, because the abstract state on
+    the bypassing path contradicts the later `Some` edge)"""
+    through = [t for t in through]
+    if target in through:
+        return True
+    return target not in dj_of(body, facts).feasible_reach(start, removed_nodes=through)
